@@ -110,7 +110,8 @@ double __CPROVER_uninterpreted_negd (double);
 #define IM_SUB(T, a, b) _Generic ((T) 0, float : __CPROVER_uninterpreted_subf ((float) (a), (float) (b)), double : __CPROVER_uninterpreted_subd ((double) (a), (double) (b)), default : ((a) - (b)))
 #define IM_MUL(T, a, b) _Generic ((T) 0, float : __CPROVER_uninterpreted_mulf ((float) (a), (float) (b)), double : __CPROVER_uninterpreted_muld ((double) (a), (double) (b)), default : ((a) * (b)))
 #define IM_DIV(T, a, b) _Generic ((T) 0, float : __CPROVER_uninterpreted_divf ((float) (a), (float) (b)), double : __CPROVER_uninterpreted_divd ((double) (a), (double) (b)), default : ((a) / (b)))
-#define IM_NEG(T, a) _Generic ((T) 0, float : __CPROVER_uninterpreted_negf ((float) (a)), double : __CPROVER_uninterpreted_negd ((double) (a)), default : (-(a)))
+/* negation stays concrete: it is exact (a sign flip) and the code compares against -max() */
+#define IM_NEG(T, a) (-(a))
 #else
 #define IM_ADD(T, a, b) ((a) + (b))
 #define IM_SUB(T, a, b) ((a) - (b))
